@@ -20,9 +20,10 @@ const prop = "C20"
 func TestMain(m *testing.M) { ev.Main(m) }
 
 type Obs struct {
-	DtMs    int64  `json:"dt_ms"`            // time since the previous observation
-	Counter uint64 `json:"counter"`          // counter value at the sampling instant
-	Avg     bool   `json:"avg,omitempty"`    // also read the average at this instant
+	DtMs    int64  `json:"dt_ms"`              // time since the previous observation
+	DtUs    int64  `json:"dt_us,omitempty"`    // ... plus this many microseconds (0..999): instants are not aligned to milliseconds
+	Counter uint64 `json:"counter"`            // counter value at the sampling instant
+	Avg     bool   `json:"avg,omitempty"`      // also read the average at this instant
 	AvgOnly bool   `json:"avg_only,omitempty"` // read the average without a sampling step
 }
 
@@ -47,8 +48,9 @@ type win struct {
 	rate  float64
 }
 
+// times in microseconds
 func (w *win) sample(now int64, c uint64) bool {
-	if now-w.last < w.ms {
+	if now-w.last < w.ms*1000 {
 		return false
 	}
 	d := int64(c - w.count) // an increase >= 2^63 is indistinguishable from going backwards
@@ -96,9 +98,9 @@ func runCase(c Case) (st stats, err error) {
 	var total uint64
 	var seen []uint64
 	for i, o := range c.Obs {
-		now += o.DtMs
+		now += o.DtMs*1000 + o.DtUs
 		s.v = o.Counter
-		at := t0.Add(time.Duration(now) * time.Millisecond)
+		at := t0.Add(time.Duration(now) * time.Microsecond)
 		if !o.AvgOnly {
 			if e := sample(at); e != nil {
 				return st, fmt.Errorf("obs %d: sampling step failed: %v", i, e)
@@ -147,7 +149,7 @@ func runCase(c Case) (st stats, err error) {
 					return st, fmt.Errorf("obs %d: %d s rate is %v (must be finite and non-negative)", i, w.ms/1000, got)
 				}
 				if !close(got, want) {
-					return st, fmt.Errorf("obs %d (t=%d ms, counter=%d): %d s rate is %v, the counter grew by %v per second of the window since its previous sample (expected %v)", i, now, o.Counter, w.ms/1000, got, w.rate, want)
+					return st, fmt.Errorf("obs %d (t=%d us, counter=%d): %d s rate is %v, the counter grew by %v per second of the window since its previous sample (expected %v)", i, now, o.Counter, w.ms/1000, got, w.rate, want)
 				}
 				// independent bound: no window can report more than the largest increase between two observations
 				if bound := float64(total) * 1000 / float64(w.ms) * scale; got > bound*(1+1e-9)+1e-9 {
@@ -159,18 +161,30 @@ func runCase(c Case) (st stats, err error) {
 			st.avgReads = true
 			got := avgAt(at) * scale
 			want := 0.0
+			elapsedUs := int64(0)
 			if o.Counter != 0 {
 				if !avgInit {
 					avgInit, avgBase, avgT0 = true, o.Counter, now
 				} else if d := int64(o.Counter - avgBase); d > 0 && now-avgT0 > 0 {
-					want = float64(d) * 1000 / float64(now-avgT0) * scale
+					want = float64(d) * 1e6 / float64(now-avgT0) * scale
+					elapsedUs = now - avgT0
 				}
 			}
 			if math.IsNaN(got) || math.IsInf(got, 0) || got < 0 {
 				return st, fmt.Errorf("obs %d: average is %v (must be finite and non-negative)", i, got)
 			}
+			// the statement does not fix the clock resolution: the elapsed time may be taken in whole milliseconds
+			// (what this library does), which moves the quotient by at most one millisecond's worth; below one
+			// millisecond any finite non-negative value goes
+			if elapsedUs > 0 && elapsedUs%1000 != 0 {
+				if ms := elapsedUs / 1000; ms == 0 {
+					want = got
+				} else if hi := want * float64(elapsedUs) / float64(ms*1000); got >= want*(1-1e-9) && got <= hi*(1+1e-9) {
+					want = got
+				}
+			}
 			if !close(got, want) {
-				return st, fmt.Errorf("obs %d (t=%d ms, counter=%d): average is %v, want %v (increase since the first non-zero observation at t=%d ms over the elapsed time)", i, now, o.Counter, got, want, avgT0)
+				return st, fmt.Errorf("obs %d (t=%d us, counter=%d): average is %v, want %v (increase since the first non-zero observation at t=%d us over the elapsed time)", i, now, o.Counter, got, want, avgT0)
 			}
 		}
 	}
@@ -202,6 +216,9 @@ func genCase(t *rapid.T) Case {
 			o.DtMs = rapid.Int64Range(0, 400000).Draw(t, "dtu")
 		} else {
 			o.DtMs = rapid.SampledFrom(dts).Draw(t, "dt")
+		}
+		if rapid.IntRange(0, 2).Draw(t, "subms") == 0 {
+			o.DtUs = rapid.SampledFrom([]int64{1, 100, 200, 500, 900, 999}).Draw(t, "dtus")
 		}
 		switch rapid.IntRange(0, 11).Draw(t, "step") {
 		case 0:
